@@ -61,18 +61,54 @@ void fs_deallocate(struct snapraid_disk* disk, block_off_t pos) { unsigned j = d
 struct snapraid_handle* handle_mapping(struct snapraid_state* state, unsigned* handlemax)
 {
 	unsigned j; (void)state;
-	HMAP = malloc(ND * sizeof(struct snapraid_handle)); VF_ASSUME(HMAP != 0);
+	static struct snapraid_handle hm[ND]; HMAP = hm;
 	for (j = 0; j < ND; ++j) { HMAP[j].disk = kind[j] == K_HOLE ? 0 : &DK[j]; HMAP[j].file = 0; HMAP[j].f = -1; HMAP[j].path[0] = 0; }
 	*handlemax = ND;
 	return HMAP;
 }
 void tommy_arrayblkof_grow(tommy_arrayblkof* array, tommy_size_t size) { VF_ASSERT(size <= array->count, "harness: info array preallocated"); }
 time_t time(time_t* t) { time_t n = 1000000; if (t) *t = n; return n; }
-void* malloc_nofail(size_t size) { void* p = malloc(size); VF_ASSUME(p != 0); return p; }
-void* calloc_nofail(size_t n, size_t size) { void* p = calloc(n, size); VF_ASSUME(p != 0); return p; }
-void* malloc_nofail_align(size_t size, void** freeptr) { void* p = malloc(size); VF_ASSUME(p != 0); *freeptr = p; return p; }
-static unsigned char copybuf[ND][BS] __attribute__((aligned(8)));
-void** malloc_nofail_vector_align(int nd, int n, size_t size, void** freeptr) { int i; void** v = malloc(ND * sizeof(void*)); (void)nd; VF_ASSUME(v != 0); VF_ASSERT(n == ND && size == BS, "copy vector"); for (i = 0; i < ND; ++i) v[i] = copybuf[i]; *freeptr = malloc(1); return v; }
+/* size-bounded memcpy / memset / memcmp (<= 16 bytes on this data plane): CBMC's library models turn a call whose length is
+ * read from a struct field into an array replace over every object in the program */
+void* memcpy(void* dst, const void* src, size_t n)
+{
+	if (n == 8) { *(uint64_t*)dst = *(const uint64_t*)src; }
+	else if (n == 16) { ((uint64_t*)dst)[0] = ((const uint64_t*)src)[0]; ((uint64_t*)dst)[1] = ((const uint64_t*)src)[1]; }
+	else if (n == 4) { *(uint32_t*)dst = *(const uint32_t*)src; }
+	else VF_ASSERT(n == 0, "harness: memcpy sizes 0/4/8/16 on this data plane");
+	return dst;
+}
+void* memset(void* dst, int c, size_t n)
+{
+	uint64_t w = (uint64_t)(unsigned char)c * 0x0101010101010101ULL;
+	if (n == 8) { *(uint64_t*)dst = w; }
+	else if (n == 16) { ((uint64_t*)dst)[0] = w; ((uint64_t*)dst)[1] = w; }
+	else VF_ASSERT(n == 0, "harness: memset sizes 0/8/16 on this data plane");
+	return dst;
+}
+int memcmp(const void* a, const void* b, size_t n)
+{
+	if (n == 8) return *(const uint64_t*)a != *(const uint64_t*)b;
+	if (n == 16) return ((const uint64_t*)a)[0] != ((const uint64_t*)b)[0] || ((const uint64_t*)a)[1] != ((const uint64_t*)b)[1];
+	VF_ASSERT(n == 0, "harness: memcmp sizes 0/8/16 on this data plane (callers only test == 0)");
+	return 0;
+}
+/* allocation: a bump allocator over a static pool (concrete offsets) and a no-op free(): with CBMC's malloc model the
+ * pointers stored in heap arrays lose their targets and every later memcpy ranges over all objects (symex did not finish) */
+static unsigned char pool[2048] __attribute__((aligned(16))); static size_t pool_used;
+static void* pool_get(size_t size) { void* p = &pool[pool_used]; pool_used += (size + 15) & ~(size_t)15; VF_ASSERT(pool_used <= sizeof(pool), "harness: pool large enough"); return p; }
+void free(void* p) { (void)p; }
+/* allocations that hold pointers get typed static storage (a pointer read back from raw bytes loses its target in CBMC);
+ * served by call order of state_sync_process: malloc_nofail -> failed[], failed_map, waiting_map; malloc_nofail_align -> rehandle[], zero */
+struct failed_compat { unsigned index; unsigned size; struct snapraid_block* block; };       /* = struct failed_struct of sync.c */
+struct rehash_compat { unsigned char hash[HASH_MAX]; struct snapraid_block* block; };        /* = struct snapraid_rehash of sync.c */
+static struct failed_compat failed_store[ND]; static struct rehash_compat rehash_store[ND];
+static int n_malloc, n_malloc_align;
+void* malloc_nofail(size_t size) { if (n_malloc++ == 0) { VF_ASSERT(size == sizeof(failed_store), "harness: failed[] layout"); return failed_store; } return pool_get(size); }
+void* calloc_nofail(size_t n, size_t size) { return pool_get(n * size); }
+void* malloc_nofail_align(size_t size, void** freeptr) { void* p; if (n_malloc_align++ == 0) { VF_ASSERT(size == sizeof(rehash_store), "harness: rehandle[] layout"); p = rehash_store; } else p = pool_get(size); *freeptr = p; return p; }
+static unsigned char copybuf[ND][BS] __attribute__((aligned(8))); static void* copyvec[ND];
+void** malloc_nofail_vector_align(int nd, int n, size_t size, void** freeptr) { int i; (void)nd; VF_ASSERT(n == ND && size == BS, "copy vector"); for (i = 0; i < ND; ++i) copyvec[i] = copybuf[i]; *freeptr = copyvec; return copyvec; }
 void pathcpy(char* dst, size_t size, const char* src) { (void)size; (void)src; dst[0] = 0; }
 void os_abort(void) { VF_ASSERT(0, "os_abort reached (internal inconsistency)"); VF_STOP(); }
 const char* esc_tag(const char* str, char* buffer) { (void)buffer; return str; }
@@ -176,6 +212,8 @@ void raid_rec(int nr, int* ir, int nd, int np, size_t size, void** v)
 
 /* ---------------- io contract stubs: single-thread semantics (cmdline/io.c *_mono) ---------------- */
 static struct snapraid_io* IOP; static struct snapraid_worker RW[ND], WW[LEVEL > 0 ? LEVEL : 1];
+/* tasks live in their own small objects: the 128-slot task_map inside each worker would make every field write a whole-array update */
+static struct snapraid_task TKR[ND], TKW[LEVEL > 0 ? LEVEL : 1];
 static unsigned char dbuf[ND + LEVEL + 1][BS] __attribute__((aligned(8))); static void* bufvec[ND + LEVEL + 1];
 static bit_vect_t* enabled; static int served, rd_next, wr_next; static int werr_count[IO_WRITER_ERROR_MAX];
 static unsigned order[ND];
@@ -206,7 +244,7 @@ static struct snapraid_task* st_data_read(struct snapraid_io* io, unsigned* disk
 	unsigned j; struct snapraid_task* t; (void)io;
 	VF_ASSERT(rd_next < ND, "each disk is read once per stripe");
 	j = order[rd_next++];
-	t = &RW[j].task_map[0];
+	t = &TKR[j];
 	t->state = TASK_STATE_READY; t->path[0] = 0; t->disk = HMAP[j].disk; t->buffer = dbuf[j]; t->position = 0; t->block = 0; t->file = 0; t->file_pos = 0; t->read_size = 0; t->is_timestamp_different = 0;
 	RW[j].func(&RW[j], t);          /* the real sync_data_reader */
 	*diskcur = j; wm[0] = j; *wmac = 1;
@@ -219,7 +257,7 @@ static void st_parity_write(struct snapraid_io* io, unsigned* levcur, unsigned* 
 	unsigned l; struct snapraid_task* t; (void)io;
 	VF_ASSERT(wr_next < LEVEL, "each level written once per stripe");
 	l = wr_next++;
-	t = &WW[l].task_map[0];
+	t = &TKW[l];
 	t->state = preset_skip ? TASK_STATE_EMPTY : TASK_STATE_READY; t->buffer = preset_skip ? (unsigned char*)0 : &dbuf[ND + l][0]; t->position = 0;
 	if (t->state != TASK_STATE_EMPTY) {
 		WW[l].func(&WW[l], t);      /* the real sync_parity_writer */
@@ -244,11 +282,21 @@ static void pre_state(void)
 	S.opt.io_error_limit = 100; S.opt.force_full = 0; S.opt.force_parity_update = 0; S.opt.force_autosave_at = 0; S.opt.expect_recoverable = 0;
 	infos[0] = vf_in_u32() & ~(snapraid_info)2;          /* no hash migration in progress on this stripe (rehash bit clear) */
 	S.infoarr.element_size = sizeof(snapraid_info); S.infoarr.count = 1; seg[0] = infos; S.infoarr.block.bucket[0] = seg; S.infoarr.block.count = 1;
-	for (l = 0; l < LEVEL; ++l) { PH[l].level = l; PH[l].split_mac = 1; wfail[l] = vf_in_u8() % 3; }
+	for (l = 0; l < LEVEL; ++l) { PH[l].level = l; PH[l].split_mac = 1; wfail[l] = vf_in_u8() % 3;
+#ifndef WFAULTS
+		wfail[l] = 0;
+#endif
+	}
 	for (j = 0; j < ND; ++j) {
 		kind[j] = vf_in_u8() % 6;
+#ifdef KINDS
+		{ static const unsigned char kk[] = { KINDS }; kind[j] = kk[j]; }   /* stripe shape enumerated by the driver */
+#endif
 		tok_new[j] = vf_in_u64(); tok_old[j] = vf_in_u64(); tok_disk[j] = vf_in_u64();
 		attr_changed[j] = vf_in_u8() % 5; open_err[j] = vf_in_u8() % 4; read_err[j] = vf_in_u8() % 3;
+#ifndef FAULTS
+		attr_changed[j] = 0; open_err[j] = 0; read_err[j] = 0;     /* fault-free run (faults are explored by the FAULTS jobs) */
+#endif
 		FL[j].size = BS; FL[j].blockmax = 1; FL[j].mtime_sec = 100; FL[j].mtime_nsec = 5; FL[j].inode = 7; FL[j].sub = "f"; FL[j].flag = 0;
 		FL[j].blockvec = (struct snapraid_block*)BV[j];
 		DK[j].name[0] = 'd'; DK[j].name[1] = 0; DK[j].dir[0] = 0;
@@ -269,7 +317,7 @@ static void pre_state(void)
 			break; }
 		}
 	}
-#if ND == 2
+#if ND == 2 && defined(REORDER)
 	if (vf_in_u8() & 1) { order[0] = 1; order[1] = 0; }      /* C13: readers may finish in any order */
 #endif
 	for (l = 0; l < LEVEL; ++l) { int isnew = vf_in_u8() & 1; for (j = 0; j < ND; ++j) par_vec[l][j] = isnew ? newv[j] : oldv[j]; parity_written[l] = 0; }
